@@ -329,7 +329,7 @@ func runC16(c *Ctx, r *Report) {
 				return
 			}
 			for _, cc := range controlling(call.Block()) {
-				if ex, ok := cc.If.Cond.(*ssa.Extract); ok && ex.Index == 1 && cc.Edge == 1 {
+				if ex, ok := cc.Cond.(*ssa.Extract); ok && ex.Index == 1 && cc.Edge == 1 {
 					if lk, ok := ex.Tuple.(*ssa.Lookup); ok {
 						if ld, ok := lk.X.(*ssa.UnOp); ok {
 							if g, ok := ld.X.(*ssa.Global); ok && g.Name() == "keywords" {
@@ -398,7 +398,7 @@ func runC16(c *Ctx, r *Report) {
 			viaNul := false
 			guarded := false
 			for _, cc := range controlling(ec.Block()) {
-				if bin, ok := cc.If.Cond.(*ssa.BinOp); ok {
+				if bin, ok := cc.Cond.(*ssa.BinOp); ok {
 					if k, ok := constInt(bin.Y); ok && k == 0 && bin.Op == token.EQL && cc.Edge == 0 {
 						viaNul = true
 					}
